@@ -119,3 +119,6 @@ Fixpoint scan_cursor (t : tid) (ls : list label) (acc : option key) : option key
   | LScanNext t' (Some (k, _)) :: r => scan_cursor t r (if Pos.eqb t' t then Some k else acc)
   | _ :: r => scan_cursor t r acc
   end.
+
+(* process exit + open: the committed database stays, no operation is in flight *)
+Definition sreopen (sp : sstate) : sstate := mkSp (s_db sp) (PositiveMap.empty spc).
